@@ -196,6 +196,10 @@ def post(lines, verdicts):
             cen["e_fetch_" + fetch] += 1
             if fetch == "m" and obs.startswith("c "):
                 cen["e_minimal_cdc"] += 1
+                if f[1][0] == "n":
+                    cen["e_nocols_minimal_cdc"] += 1
+            if f[1][0] == "u" and any(r.startswith(f[3] + ":") for r in f[2].split(",")):
+                cen["e_unknown_with_row"] += 1
         elif f[0] == "Y":
             if obs.startswith("some:") and len(f[3].split(",")) >= 2:
                 cen["y_composite_ok"] += 1
@@ -221,12 +225,14 @@ def post(lines, verdicts):
                "k_malformed": 300, "too_long": 10, "k_typed_path_compared": 8000, "k_cdc": 1000, "k_5plus_components": 1000,
                "p_cdc": 100, "p_unknown": 100, "e_cdc": 60, "e_scen_s": 500, "e_scen_x": 30, "e_scen_u": 30, "e_scen_n": 30,
                "e_fetch_f": 300, "e_fetch_m": 200, "e_fetch_d": 40, "e_minimal_cdc": 15,
+               "e_nocols_minimal_cdc": 10, "e_unknown_with_row": 20,
                "y_composite_ok": 800, "y_ser_err": 20, "z_cdc": 100}
         for k, fl in cfl.items():
             if cen[k] < fl:
                 probs.append(("diff", k, f"diff coverage floor: only {cen[k]} cases of class {k} (< {fl})"))
-        if cen["e_not_run"] > 20:   # environment trouble (cluster/session could not start) is not-run, capped
-            probs.append(("diff", "E", f"diff {cen['e_not_run']} end-to-end cases could not be run"))
+        cap = max(20, (15 * kinds["E"]) // 1000)   # environment trouble is not-run, capped at 20 cases or 1.5 % of E
+        if cen["e_not_run"] > cap:
+            probs.append(("diff", "E", f"diff {cen['e_not_run']} end-to-end cases could not be run (cap {cap})"))
         if post.spec_k2 < 60:
             probs.append(("diff", "S", f"diff coverage floor: only {post.spec_k2} spec-tie inputs with a signed k2 tail"))
     return probs
@@ -260,7 +266,8 @@ def _release_mode_tie(lines):
     hdir, _ = oc.harness_dir()
     target = oc.CARGO_TARGET + "-c03-nochk"
     env = dict(os.environ)
-    env.pop("RUSTFLAGS", None)
+    for v in ("RUSTFLAGS", "CARGO_ENCODED_RUSTFLAGS", "CARGO_BUILD_RUSTFLAGS", "CARGO_BUILD_TARGET_DIR"):
+        env.pop(v, None)
     env.update({"CARGO_PROFILE_DEV_OVERFLOW_CHECKS": "false", "CARGO_TARGET_DIR": target, "CARGO_NET_OFFLINE": "true"})
     tag = f"C03.{os.getpid()}.nochk"
     work = os.path.join(ROOT, "work")
@@ -324,7 +331,7 @@ SPEC = {
     "rule": ("fixed sweeps: H = hash_one on every length 0..70 x 4 byte classes (>=0x80 dense, 0xff, uniform, "
              "0x80/0x7f) and every multiple / near-multiple of 16 up to 4 KiB; W = write/finish over every 2- and "
              "3-split of a 48-byte string; K = every placement of k<=4 (thorough 5) key markers among k..k+2 "
-             "markers (1/5 CDC), the 65534..65537-byte component boundary; P = partitioner class names; plus seeded "
+             "markers (1/5 CDC), the 65534..65537-byte component boundary; the six standard partitioner class names (kind P); plus seeded "
              "random cases: H, W (random chunkings, chunk sizes around 0/1/8/16/32), K (1..8 key components among "
              "<=16 markers, permuted, non-key markers value/null/unset interleaved; 15% malformed: null key "
              "component, duplicate / out-of-range pk index, missing values, missing column specs, not token aware), "
@@ -353,18 +360,21 @@ SPEC = {
         "parsers; the runner rebuilds `name.and_then(from_str).unwrap_or_default()` from the hook and the real Default",
     ],
     "assumptions": [
-        "hashed streams are shorter than 2^63 bytes in C03_chunking / C03_feed / C03_token; C03_chunking_all / C03_feed_all / "
-        "C03_token_all drop that premise (the length enters only modulo 2^64)",
+        "hashed streams are shorter than 2^63 bytes: premise of C03_chunking, C03_feed, C03_hash_one, C03_chunk_independent, C03_token, "
+        "C03_marker_order, C03_murmur3_table(_chain/_last_row/_fetch_modes), C03_token_preserialized, C03_token_typed, C03_token_shard, "
+        "C03_prop_model, C03_prop_pk_model; C03_chunking_all / C03_feed_all / C03_token_all drop it (the length enters only modulo 2^64; a "
+        "premise removal inside the model, beyond 2^31-1 bytes the Java function does not exist)",
         "inside the quantifier (key_ok, decided exactly by key_okb): pk indexes distinct, each names an existing "
         "marker bound to a value, at most 65535 bound values; outside it the model still follows the code (panics and "
         "errors are compared exactly)",
         "build modes: the main harness is built with overflow-checks (u16 overflow in PartitionKey::new panics; kind K, "
         "model flag checks=true); post re-runs the malformed K cases with the same runner built with overflow checks "
         "off (wrapping, kind R, checks=false; only a duplicate pk index differs between the modes, an index >= column specs "
-        "panics in both); that second build is the dev profile, not an optimised --release build, and is built inside "
-        "post on the first run after a fresh clone",
+        "panics in both); that second build is the dev profile, not an optimised --release build; setup.sh prebuilds it, post re-runs "
+        "cargo build on <CARGO_TARGET>-c03-nochk (no-op when fresh)",
         "end-to-end E cases need loopback listeners (mocknode); a scenario whose mock cluster or Session cannot start is `ok not-run`, "
-        "counted in the census (e_not_run) and capped at 20 per run; a failing Session::prepare is a diff",
+        "counted in the census (e_not_run) and capped at max(20, 1.5 % of the E cases) on generated runs (>= 50 000 lines; post is not called on "
+        "replays); a failing Session::prepare is a diff",
     ],
 }
 
